@@ -742,6 +742,16 @@ func (b *BlockWise[C]) getCachedReceivedMessage(mg *messageGuard, r *pool.Messag
 	return mg.Message, closeFn, nil
 }
 
+// asksForBlock2 reports whether the request itself asks for block num of the response.
+func asksForBlock2(req *pool.Message, num int64) bool {
+	block, err := req.GetOptionUint32(message.Block2)
+	if err != nil {
+		return false
+	}
+	_, n, _, err := DecodeBlockOption(block)
+	return err == nil && n == num
+}
+
 //nolint:gocyclo,gocognit
 func (b *BlockWise[C]) processReceivedMessage(w *responsewriter.ResponseWriter[C], r *pool.Message, maxSzx SZX, next func(w *responsewriter.ResponseWriter[C], r *pool.Message), blockType message.OptionID, sizeType message.OptionID) error {
 	token := r.Token()
@@ -793,6 +803,11 @@ func (b *BlockWise[C]) processReceivedMessage(w *responsewriter.ResponseWriter[C
 				// the last block of an upload whose earlier blocks are not held (lost, or a late
 				// duplicate after the transfer finished) is not a complete request - RFC 7959 2.5
 				return fmt.Errorf("received final block(%v) of a request body whose previous blocks are not available", num)
+			}
+			if blockType == message.Block2 && num != 0 && !asksForBlock2(sentRequest, num) {
+				// the same for a download: unless the request asked for exactly this block, the tail
+				// of a body whose earlier blocks are not held (expired, lost) is not the response
+				return fmt.Errorf("received final block(%v) of a response body whose previous blocks are not available", num)
 			}
 			next(w, r)
 			return nil
